@@ -20,6 +20,7 @@ import (
 	"fmt"
 	"net/http"
 	"net/http/httptest"
+	"net/url"
 	"sync"
 	"time"
 )
@@ -201,6 +202,54 @@ func init() {
 				}
 			}
 
+			// ---- C03 / C10: a login STARTED through one instance and COMPLETED (callback) through the other — the load balancer does not
+			// pin a browser to an instance: the login's own state and CSRF cookie complete it, and the session it yields is
+			// the same session on the first instance
+			for _, dir := range []string{"A-then-B", "B-then-A"} {
+				nb := newBrowser()
+				var loc string
+				if dir == "A-then-B" {
+					_, loc = a.startLogin(nb, "/landing?x=1")
+				} else if resp, err := rp.do(a.opts.ProxyPrefix+"/start?rd=%2Flanding%3Fx%3D1", "", nil); err == nil {
+					nb.apply(resp)
+					loc = resp.Header.Get("Location")
+				}
+				cb, _, err := a.idp.authorize(loc, u)
+				if err != nil || loc == "" {
+					c.violation("HARNESS", "cross-instance login could not be started ("+dir+")", in(nil))
+					continue
+				}
+				cu, _ := url.Parse(cb)
+				status, landing := 0, ""
+				if dir == "A-then-B" {
+					if resp, err := rp.do(cu.RequestURI(), nb.cookieHeader(), nil); err == nil {
+						nb.apply(resp)
+						status, landing = resp.StatusCode, resp.Header.Get("Location")
+					}
+				} else {
+					v := a.do(reqSpec{Target: cu.RequestURI(), Cookie: nb.cookieHeader()})
+					if v.raw != nil {
+						nb.apply(v.raw)
+					}
+					status, landing = v.Status, v.Location
+				}
+				c.casen(fmt.Sprintf("replicas|%v|login|%s", redis, dir), fmt.Sprint(status))
+				c.count("replicas:cross-instance-login")
+				if status != 302 || !hasAnySessionCookie(nb, a.opts.Cookie.Name) {
+					c.violation("C03", "a login started through one instance and completed through the other (its own unmodified state and CSRF cookie) did not complete: status "+fmt.Sprint(status),
+						in(map[string]interface{}{"direction": dir, "status": status}))
+					continue
+				}
+				if landing != "/landing?x=1" {
+					c.violation("C06", "cross-instance login: the landing page differs from the plain same-site path requested", in(map[string]interface{}{"landing": landing}))
+				}
+				for k := 0; k < 2; k++ {
+					if ok, _ := served(k, nb.cookieHeader()); !ok {
+						c.violation("C10", fmt.Sprintf("the session a login through one instance saved is not loaded by instance %d of the same deployment", k), in(map[string]interface{}{"direction": dir}))
+					}
+				}
+			}
+
 			// ---- C09: accepted while valid by B, refused by both once the lifetime has run out
 			{
 				s := a.sessionFor(u, time.Hour-3*time.Second)
@@ -222,6 +271,6 @@ func init() {
 			rp.stop()
 			a.close()
 		}
-		c.close([]string{"replicas:same-session", "replicas:concurrent-refresh", "replicas:signout", "replicas:presented-again-after-expiry"})
+		c.close([]string{"replicas:same-session", "replicas:concurrent-refresh", "replicas:signout", "replicas:presented-again-after-expiry", "replicas:cross-instance-login"})
 	})
 }
